@@ -60,7 +60,9 @@ where
                               // we loop here again
                         }
                         _ => {
-                            break;
+                            if self.detected_storage_header {
+                                break;
+                            } // else not enough data for a msg with storage header but there might be a (shorter) one with serial header
                         }
                     },
                 }
